@@ -308,6 +308,7 @@ where
         }
     });
     total.merge(merged.into_inner().unwrap());
+    total.cov_n(&format!("stream_cases:{}", stream), n);
     let refused = total.cov.get("history_ended_by_argument_assertion").copied().unwrap_or(0);
     if n >= 50 && refused * 50 > n {
         total.inconclusive(format!("stream {}: {} of {} cases ended by an argument assertion of the crate; the workload no longer covers what it promises", stream, refused, n));
